@@ -42,7 +42,7 @@ def model_keys(ctx):
            'Import ListNotations.\nLocal Open Scope string_scope.\n'
            'Definition y0 : sys Z Z Z := mksys 1%Z 2%Z [(3%Z,4%Z,5%Z)] "rdp" (mkss 0%Z 1%Z 1%Z 0%Z (fun _ => 1%Z) 3%Z) (mkss 0%Z 1%Z 1%Z 0%Z (fun _ => 1%Z) 2%Z).\n'
            'Definition a0 : acc := mkacc 0 "rdp".\n'
-           'Definition show (r : result acc) : string := match r with Ok _ => "Ok" | Err ValueError => "ValueError" | Err KeyError => "KeyError" | Err TypeError => "TypeError" | Err _ => "Other" end.\n')
+           'Definition show (r : result (heap Z * acc)) : string := match r with Ok _ => "Ok" | Err ValueError => "ValueError" | Err KeyError => "KeyError" | Err TypeError => "TypeError" | Err _ => "Other" end.\n')
     body = []
     for o in ('true', 'false'):
         for n in ('true', 'false'):
@@ -51,7 +51,10 @@ def model_keys(ctx):
     variants = ['None', 'Some []', 'Some [("mechanism", VMech "rdp")]', 'Some [("history", VLoc 0)]',
                 'Some [("history", VLoc 0); ("mechanism", VMech "gdp")]', 'Some [("history", VLoc 0); ("mechanism", VMech "rdp")]']
     for v in variants:
-        body.append('Eval vm_compute in (show (acc_load_state_dict a0 (%s))).' % v)
+        body.append('Eval vm_compute in (show (acc_load_state_dict [[(1,1,1)%%Z]] a0 (%s))).' % v)
+    # does the loaded accountant own its history cell (deepcopy) or the caller's (cell 0)?
+    body.append('Eval vm_compute in (match acc_load_state_dict [[(1,1,1)%Z]] a0 (Some [("history", VLoc 0); ("mechanism", VMech "rdp")]) with '
+                'Ok (_, b) => if Nat.eqb (a_loc b) 0 then "Aliased" else "Fresh" | Err _ => "Raised" end).')
     rc, out = vlib.coq_eval('cases_c16', hdr, '\n'.join(body))
     if rc != 0:
         ctx.obligation('correspondence:ckpt-keys', False, 'model evaluation failed: ' + out[-600:])
@@ -110,11 +113,22 @@ def run(ctx, gen_status):
                 if got != sh:
                     bad = '%s accountant load_state_dict(%s): real %s, generated model %s' % (a['mech'], nm, got, sh)
         ctx.obligation('correspondence:load_state_dict-guards(model=impl)', bad is None, bad or '')
+        own = shows[len(names)] if len(shows) > len(names) else '?'
+        bad = None
+        for a in res['accountant']:
+            got = 'Fresh' if a.get('load_isolated') else 'Aliased'
+            if got != own:
+                bad = '%s accountant: loaded history is %s in the real code, %s in the generated model' % (a['mech'], got, own)
+        ctx.obligation('correspondence:load_state_dict-ownership(model=impl)', bad is None, bad or '')
     for a in res['accountant']:
         case = {'accountant': a['mech']}
         ctx.case(case, kind='accountant-guards')
         if not a['isolated']:
             ctx.fail('state-dict-aliases-history', 'a state_dict taken earlier changed when the accountant stepped', case)
+        if not a.get('load_isolated', True):
+            ctx.fail('load-aliases-history', '%s accountant: load_state_dict keeps the caller\'s history list: stepping the accountant changed the state it was loaded from (and a sibling loaded from it)' % a['mech'], case)
+        if not a.get('refusal_keeps', True):
+            ctx.fail('refused-step-wipes-ledger', '%s accountant: a refused step (another sigma) changed the recorded history' % a['mech'], case)
         v = a['variants']
         for nm in ('none', 'empty', 'no_history', 'no_mechanism', 'other_mechanism', 'from_other'):
             if v[nm] == 'Ok' or v[nm] == 'Ok-wrong-history':
@@ -136,7 +150,7 @@ def replay_case(ctx, failure):
     n0 = len(ctx.failures)
     if 'accountant' in c:
         res = vlib.run_impl('ckpt_runs.py', {'cases': [], 'accountant': True})
-        bad = [a for a in res['accountant'] if a['mech'] == c['accountant'] and (not a['isolated'] or a['variants']['good'] != 'Ok' or
+        bad = [a for a in res['accountant'] if a['mech'] == c['accountant'] and (not a['isolated'] or not a.get('load_isolated', True) or not a.get('refusal_keeps', True) or a['variants']['good'] != 'Ok' or
                any(a['variants'][k].startswith('Ok') for k in ('none', 'empty', 'no_history', 'no_mechanism', 'other_mechanism', 'from_other')))]
         return not bad, bad or 'holds'
     rr = vlib.run_impl('ckpt_runs.py', {'cases': [c]})['results'][0]
